@@ -26,6 +26,13 @@ Definition wrapu (bits z : Z) : Z := z mod 2 ^ bits.
 Definition divRoundUp_u (bits a b : Z) : Z :=
   Z.quot (wrapu bits (wrapu bits (a + b) - 1)) b.
 
+(* the same template at a type NARROWER than int (int8_t, uint8_t, int16_t, uint16_t): the usual arithmetic
+   conversions promote both operands to int, (a + b - 1) / b is computed in int (no wrap: |a + b - 1| < 2^17), and the
+   ONE narrowing conversion happens at the return *)
+Definition narrow (sgn : bool) (bits z : Z) : Z :=
+  if sgn then (z + 2 ^ (bits - 1)) mod 2 ^ bits - 2 ^ (bits - 1) else z mod 2 ^ bits.
+Definition divRoundUp_n (sgn : bool) (bits a b : Z) : Z := narrow sgn bits (Z.quot (a + b - 1) b).
+
 (* ---- cvt_uint32(vec4f): (c0 << 0) | (c1 << 8) | (c2 << 16) | (c3 << 24) in uint32_t *)
 Definition u32 (z : Z) : Z := z mod 2 ^ 32.
 Definition pack (c0 c1 c2 c3 : Z) : Z :=
